@@ -78,6 +78,8 @@ IntervalVerdict(e) ==
 ExchangeVerdict(e) ==
   IF c < 2 THEN "ExchangeAdjacentRungs"
   ELSE IF e.ti # Hdr.temps[c] \/ e.tj # Hdr.temps[c - 1] THEN "ExchangeAdjacentRungs"
+  ELSE IF e.inb # Hdr.inb THEN "ExchangeUsesChainPrior"   \* same prior (inbreeding) as the within-chain moves; the haplotype-space size is
+                                                          \* not compared: interpreted numpy takes log of an int8 array in float16
   ELSE IF visited # AllPairs THEN "SweepCompleteBeforeExchange"
   ELSE IF exchanged THEN "ExchangeOncePerRung"
   ELSE IF Seq1(e.bi) # chains[c] \/ Seq1(e.bj) # chains[c - 1] THEN "StateThreaded"
